@@ -236,7 +236,7 @@ fn generate(seed: u64, tier: Tier, em: &mut Emitter) {
 
     // 3. seeded random, n up to 40 (thorough: 120)
     let mut rng = SplitMix64::new(seed ^ 0xC14);
-    let nrand = if thorough { 30000 } else { 2600 };
+    let nrand = if thorough { 20000 } else { 2600 };
     let nlim = if thorough { 120 } else { 40 };
     for i in 0..nrand {
         let n = if rng.chance(1, 8) { rng.below(4) } else { rng.below(nlim + 1) } as usize;
@@ -286,7 +286,7 @@ fn generate(seed: u64, tier: Tier, em: &mut Emitter) {
     // 4. cross-partitioning comparisons (the documented "identical for sequential and parallel
     //    execution and for every partitioning").  Each is also emitted as plain "g"/"k" cases so
     //    that size / sub-multiset / model agreement are judged outside the known-finding class.
-    let ncmp = if thorough { 6000 } else { 700 };
+    let ncmp = if thorough { 4000 } else { 700 };
     for i in 0..ncmp {
         let n = rng.below(if i % 3 == 0 { 6 } else { 31 }) as usize;
         let k = match rng.below(5) {
